@@ -35,7 +35,9 @@ type Case struct {
 
 func (c Case) canon() string { b, _ := json.Marshal(c); return string(b) }
 
-func (c Case) put(name string, content []byte) { c.Files[name] = base64.StdEncoding.EncodeToString(content) }
+func (c Case) put(name string, content []byte) {
+	c.Files[name] = base64.StdEncoding.EncodeToString(content)
+}
 
 func (c Case) materialise(dir string) error {
 	for name, b64 := range c.Files {
